@@ -164,7 +164,7 @@ pub enum EvKind {
     StopEnter { a: u32, killed: bool },
     StopExit { a: u32, out: Out },
     Joined { a: u32, res: JoinRes },
-    Panic { msg: String },
+    Panic { msg: String, op: Option<(Who, u32)> },
     DeadLetter { raw: u64, a: Option<u32>, msg_type: String, reason: String, operation: String, op: Option<(Who, u32)> },
     /// error-level tracing event emitted by rsactor / generated code (message text)
     ErrTrace { msg: String },
@@ -258,6 +258,7 @@ pub struct World {
     pub max_log: usize,
     pub overflow: bool,
     pub closing: bool,
+    pub dropped: u64,
 }
 
 thread_local! {
@@ -281,6 +282,7 @@ pub fn install(erase: Option<u64>, nonce_seed: u64) {
             max_log: 12000,
             overflow: false,
             closing: false,
+            dropped: 0,
         })
     });
 }
@@ -306,19 +308,28 @@ pub fn try_with<R>(f: impl FnOnce(&mut World) -> R) -> Option<R> {
 pub fn log(k: EvKind) {
     let task = tokio::sim::current_task().map(|t| t as i64).unwrap_or(-1);
     let step = tokio::sim::step();
-    try_with(|w| {
+    let runaway = try_with(|w| {
         if w.closing {
-            return;
+            return false;
         }
         if w.log.len() >= w.max_log {
             w.overflow = true;
-            return;
+            w.dropped += 1;
+            return w.dropped > 200_000;
         }
         let t = tokio::time::Instant::now().saturating_duration_since(w.t0).as_micros() as u64;
         w.seq += 1;
         let seq = w.seq;
         w.log.push(Ev { seq, t, step, task, k });
-    });
+        false
+    })
+    .unwrap_or(false);
+    // A task that keeps producing events without ever yielding (a busy loop inside one poll) can only
+    // be stopped from inside: unwind it. The run is already marked inconclusive (history overflow).
+    if runaway && task >= 0 && !std::thread::panicking() {
+        try_with(|w| w.dropped = 0);
+        panic!("HARNESS-RUNAWAY: task {task} produced more than 200000 events beyond the history limit without finishing");
+    }
 }
 
 pub fn next_nonce() -> u64 {
